@@ -160,6 +160,7 @@ func raceBuffer(ov *raceOverlap, scripts [][]int) {
 	if !(len(scripts) > 0 && len(scripts[0]) > 0 && scripts[0][0]%4 == 0) {
 		shared, _ = b.NewConsumer()
 	}
+	var lastNote atomic.Pointer[bigbuff.FixedBufferCleanerNotification]
 	var sharedMu sync.Mutex // only guards the harness's own "pending reads" counter
 	pendingShared := 0
 	var seq atomic.Int64
@@ -270,13 +271,24 @@ func raceBuffer(ov *raceOverlap, scripts [][]int) {
 				if op%2 == 0 {
 					_ = b.SetCleanerConfig(bigbuff.CleanerConfig{Cleaner: bigbuff.DefaultCleaner, Cooldown: cd})
 				} else {
-					_ = b.SetCleanerConfig(bigbuff.CleanerConfig{Cleaner: bigbuff.FixedBufferCleaner(8, 4, nil), Cooldown: cd})
+					// the callback keeps the notification (what the library handed over is the receiver's to keep);
+					// another goroutine reads it later
+					_ = b.SetCleanerConfig(bigbuff.CleanerConfig{Cleaner: bigbuff.FixedBufferCleaner(8, 4, func(n bigbuff.FixedBufferCleanerNotification) {
+						lastNote.Store(&n)
+					}), Cooldown: cd})
 				}
 				d()
 			case op < 92:
 				d := ov.enter("CleanerConfig")
 				_ = b.CleanerConfig()
 				d()
+				if n := lastNote.Load(); n != nil {
+					sum := n.Size + n.Trim
+					for _, o := range n.Offsets {
+						sum += o
+					}
+					_ = sum
+				}
 			case op < 96:
 				if own != nil {
 					d := ov.enter("Buffer.Range")
